@@ -69,7 +69,8 @@ class RequestHandlerBase(MethodView):
         """
         try:
             token = params['csrf_token']
-        except KeyError:
+        except (KeyError, TypeError):
+            # TypeError: a JSON body that is not an object
             raise CsrfFailureException('csrf_token not present')
         if not isinstance(token, str) or not token:
             raise CsrfFailureException('csrf_token not present')
